@@ -15,7 +15,7 @@
    transmitter data) plus `chist`, the list of the amplifier stages that processed it (most recent first): the
    physical per-channel payload (power, ASE, NLI, CD, ...) is not modelled here (C01-C06), only *which*
    amplifier acted on *which* channel. *)
-From Coq Require Import QArith.
+From Coq Require Import QArith Qround.
 From Verif Require Import Prelude.
 Open Scope Q_scope.
 
@@ -68,11 +68,13 @@ Definition E_sum : string := "SpectrumError:sum".
 Definition E_empty : string := "ValueError:liste vide".
 Definition E_noband : string := "ValueError:no band".
 
-Definition mk_si (l : list chan) : res si :=
-  let s := sort_by cf l in
+(* the two checks made on the sorted arrays *)
+Definition check_si (s : si) : res si :=
   if adj_overlap s then Err E_overlap
   else if existsb exceeds s then Err E_baud
   else Ok s.
+
+Definition mk_si (l : list chan) : res si := check_si (sort_by cf l).
 
 (* SpectralInformation.__add__ : every SpectrumError of the constructor is re-raised as "cannot be summed" *)
 Definition si_add (a b : si) : res si :=
@@ -155,38 +157,58 @@ Fixpoint list_eqb {A} (e : A -> A -> bool) (a b : list A) : bool :=
 Definition remove_dups (l : list (list band)) : list (list band) :=
   fold_left (fun acc a => if existsb (list_eqb band_eqb a) acc then acc else acc ++ [a]) l [].
 
-(* calculate_spacing with default_design_bands = None (the way request.py calls it) *)
-Definition spacing_of (f s : band) (dflt : Q) : Q :=
+(* get_spacing_from_band: spacing of the first design band containing the midpoint (which may itself be None) *)
+Fixpoint spacing_from_band (ddb : list band) (mid : Q) : option Q :=
+  match ddb with
+  | [] => None
+  | b :: t => if qle (bmin b) mid && qle mid (bmax b) then bsp b else spacing_from_band t mid
+  end.
+
+(* default spacing and default_design_bands ([] = None / empty: both are falsy in Python) *)
+Definition spdef : Type := (Q * list band)%type.
+
+(* calculate_spacing *)
+Definition spacing_of (d : spdef) (f s : band) (lo hi : Q) : Q :=
   match bsp f, bsp s with
   | Some a, Some b => qmax a b
   | Some a, None => a
   | None, Some b => b
-  | None, None => dflt
+  | None, None =>
+      match snd d with
+      | [] => fst d
+      | ddb => match spacing_from_band ddb (half (lo + hi)) with Some x => x | None => fst d end
+      end
   end.
 
-Definition inter (dflt : Q) (f s : band) : list band :=
+Definition inter (d : spdef) (f s : band) : list band :=
   let lo := qmax (bmin f) (bmin s) in
   let hi := qmin (bmax f) (bmax s) in
-  if qlt lo hi then [mkB lo hi (Some (spacing_of f s dflt))] else [].
+  if qlt lo hi then [mkB lo hi (Some (spacing_of d f s lo hi))] else [].
 
-Definition cr_step (dflt : Q) (cr bands : list band) : list band :=
-  flat_map (fun f => flat_map (inter dflt f) bands) cr.
+Definition cr_step (d : spdef) (cr bands : list band) : list band :=
+  flat_map (fun f => flat_map (inter d f) bands) cr.
 
 (* the common range of already validated amplifiers (Step 2 non-empty case and Step 3) *)
-Definition common_of (dflt : Q) (u : list (list band)) : list band :=
+Definition common_of (d : spdef) (u : list (list band)) : list band :=
   match u with
   | [] => []
-  | first :: _ => sort_by bmin (fold_left (cr_step dflt) u first)
+  | first :: _ => sort_by bmin (fold_left (cr_step d) u first)
   end.
 
-Definition find_common_range (amps : list (list rband)) (dmin dmax : option Q) (dsp : Q) : list band :=
+(* find_common_range(amp_bands, default_band_f_min, default_band_f_max, default_spacing, default_design_bands) *)
+Definition find_common_range_gen (amps : list (list rband)) (dmin dmax : option Q) (dsp : Q) (ddb : list band)
+  : list band :=
   match remove_dups (map (sort_by bmin) (filter_valid amps)) with
   | [] => match dmin, dmax with
           | Some a, Some b => [mkB a b None]
           | _, _ => []
           end
-  | u => common_of dsp u
+  | u => common_of (dsp, ddb) u
   end.
+
+(* the way request.find_elements_common_range calls it: default_design_bands = None *)
+Definition find_common_range (amps : list (list rband)) (dmin dmax : option Q) (dsp : Q) : list band :=
+  find_common_range_gen amps dmin dmax dsp [].
 
 (* ---------- path elements ---------- *)
 Record amp := mkA { auid : Z; abands : list band }.        (* an Edfa: uid + params.bands *)
@@ -280,3 +302,77 @@ Definition launch (path : list elem) (dmin dmax : option Q) (dsp : Q) (l : list 
   let* s0 := mk_si l in
   let* s1 := filter_si path dmin dmax dsp s0 in
   propagate_path path s1.
+
+(* ====================================================================================================
+   Construction of the launched spectrum
+   ==================================================================================================== *)
+
+(* ---------- SpectralInformation.__init__ as written: column-wise ----------
+   indices = argsort(frequency); every per-channel array is re-indexed with `indices`; then the two checks.
+   (mk_si above is the row-wise view; Proofs/Channels.v shows that both coincide.) *)
+Record cols := mkCols {
+  q_id : list Z; q_f : list Q; q_baud : list Q; q_slot : list Q; q_label : list string;
+  q_osnr : list Q; q_txp : list Q; q_dpdb : list Q; q_ro : list Q      (* tx_osnr, tx_power, delta_pdb_per_channel, roll_off *)
+}.
+Definition row (cs : cols) (i : nat) : chan :=
+  mkC (nth i (q_id cs) 0%Z) (nth i (q_f cs) 0) (nth i (q_baud cs) 0) (nth i (q_slot cs) 0) (nth i (q_label cs) ""%string)
+      [nth i (q_osnr cs) 0; nth i (q_txp cs) 0; nth i (q_dpdb cs) 0; nth i (q_ro cs) 0] [].
+Definition rows (cs : cols) : list chan := map (row cs) (seq 0 (length (q_f cs))).
+
+Definition argsort (fs : list Q) : list nat := sort_by (fun i => nth i fs 0) (seq 0 (length fs)).
+Definition take {A} (d : A) (col : list A) (idx : list nat) : list A := map (fun i => nth i col d) idx.
+Definition reindex (cs : cols) (idx : list nat) : cols :=
+  mkCols (take 0%Z (q_id cs) idx) (take 0 (q_f cs) idx) (take 0 (q_baud cs) idx) (take 0 (q_slot cs) idx)
+         (take ""%string (q_label cs) idx) (take 0 (q_osnr cs) idx) (take 0 (q_txp cs) idx) (take 0 (q_dpdb cs) idx)
+         (take 0 (q_ro cs) idx).
+Definition mk_si_cols (cs : cols) : res si := check_si (rows (reindex cs (argsort (q_f cs)))).
+
+(* create_arbitrary_spectral_information with list arguments: numpy.full(number_of_channels, x) raises
+   "could not broadcast" when a list has another length -> SpectrumError('Dimension mismatch in input fields.') *)
+Definition E_dim : string := "SpectrumError:dimension".
+Definition cols_wf (cs : cols) : bool :=
+  let n := length (q_f cs) in
+  Nat.eqb (length (q_id cs)) n && Nat.eqb (length (q_baud cs)) n && Nat.eqb (length (q_slot cs)) n &&
+  Nat.eqb (length (q_label cs)) n && Nat.eqb (length (q_osnr cs)) n && Nat.eqb (length (q_txp cs)) n &&
+  Nat.eqb (length (q_dpdb cs)) n && Nat.eqb (length (q_ro cs)) n.
+Definition create_arbitrary_cols (cs : cols) : res si :=
+  if cols_wf cs then mk_si_cols cs else Err E_dim.
+
+(* ---------- carriers_to_spectral_information ----------
+   initial_spectrum is a dict frequency -> Carrier; one list per attribute is built from keys() / values() in
+   dict order, then create_arbitrary_spectral_information. *)
+Record carrier := mkK {
+  k_id : Z; k_baud : Q; k_slot : Q; k_label : string; k_osnr : Q; k_txp : Q; k_dpdb : Q; k_ro : Q
+}.
+Definition cols_of_dict (d : list (Q * carrier)) : cols :=
+  mkCols (map (fun kv => k_id (snd kv)) d) (map fst d) (map (fun kv => k_baud (snd kv)) d)
+         (map (fun kv => k_slot (snd kv)) d) (map (fun kv => k_label (snd kv)) d) (map (fun kv => k_osnr (snd kv)) d)
+         (map (fun kv => k_txp (snd kv)) d) (map (fun kv => k_dpdb (snd kv)) d) (map (fun kv => k_ro (snd kv)) d).
+Definition carriers_to_si (d : list (Q * carrier)) : res si := create_arbitrary_cols (cols_of_dict d).
+(* the channel a dict entry describes *)
+Definition chan_of (kv : Q * carrier) : chan :=
+  let k := snd kv in
+  mkC (k_id k) (fst kv) (k_baud k) (k_slot k) (k_label k) [k_osnr k; k_txp k; k_dpdb k; k_ro k] [].
+
+(* ---------- create_input_spectral_information (uniform grid) ----------
+   number_of_channels = automatic_nch(f_min, f_max, spacing) = int((f_max - f_min) // spacing)
+   frequency = [f_min + spacing * i for i in range(1, number_of_channels + 1)], slot_width = spacing *)
+Definition E_zero : string := "ZeroDivisionError:float floor division by zero".
+Definition automatic_nch (fmin fmax sp : Q) : res Z :=
+  if qeqb sp 0 then Err E_zero else Ok (Qfloor ((fmax - fmin) / sp)).
+
+Fixpoint grid_from (mk : Z -> chan) (i : Z) (k : nat) : list chan :=
+  match k with
+  | O => []
+  | S k' => mk i :: grid_from mk (i + 1)%Z k'
+  end.
+(* channel number i (cid = i): label and transmitter data are the same for all channels *)
+Definition grid_chan (fmin sp baud : Q) (label : string) (tx : list Q) (i : Z) : chan :=
+  mkC i (fmin + sp * inject_Z i) baud sp label tx [].
+Definition grid_chans (fmin sp baud : Q) (label : string) (tx : list Q) (n : Z) : list chan :=
+  grid_from (grid_chan fmin sp baud label tx) 1%Z (Z.to_nat n).
+(* delta_pdb * ones(number_of_channels): numpy refuses a negative dimension *)
+Definition E_negdim : string := "ValueError:negative dimensions are not allowed".
+Definition create_input_si (fmin fmax sp baud : Q) (label : string) (tx : list Q) : res si :=
+  let* n := automatic_nch fmin fmax sp in
+  if (n <? 0)%Z then Err E_negdim else mk_si (grid_chans fmin sp baud label tx n).
